@@ -374,7 +374,25 @@ func checkC12(c *Ctx) {
 			}
 			nread++
 			site := "slot read in " + fnKey(a.Fn)
-			bo, ok := stripConv(ia.Index).(*ssa.BinOp)
+			idxV := stripConv(ia.Index)
+			// the slot may be computed by a helper: slots[keySlot(key)] with keySlot returning crc16(hashtag(key))&mask
+			// of its own parameter, called with the router's routing key
+			if hcall, isCall := idxV.(*ssa.Call); isCall {
+				if g := calleeFn(hcall.Common()); g != nil && isModFn(g) && g.Blocks != nil && len(hcall.Call.Args) == 1 {
+					if _, isP := hcall.Call.Args[0].(*ssa.Parameter); isP {
+						var rets []ssa.Value
+						eachInstr(g, func(_ *ssa.BasicBlock, _ int, x ssa.Instruction) {
+							if r, ok := x.(*ssa.Return); ok && len(r.Results) == 1 {
+								rets = append(rets, r.Results[0])
+							}
+						})
+						if len(rets) == 1 {
+							idxV = stripConv(rets[0])
+						}
+					}
+				}
+			}
+			bo, ok := idxV.(*ssa.BinOp)
 			var hv ssa.Value
 			okMask := false
 			if ok {
